@@ -108,18 +108,27 @@ SrcOK(s, all) ==
                          /\ \A i, j \in 1..Len(s.ss) : i < j => Emptied(s.ss[i]) \cap Emptied(s.ss[j]) = {}
       [] OTHER -> FALSE
 
+\* a portion given by a variable is written with a negative denominator: Por(1, -3) is a variable whose value is 1/3.
+\* The compiler knows only the literal portions; the machine knows them all.
+AbsD(p) == IF p.d < 0 THEN 0 - p.d ELSE p.d
+IsVarPortion(p) == p.d < 0
 Known(ps) == {i \in 1..Len(ps) : ps[i].n >= 0}
 \* sum of the known portions as a fraction over the common denominator
 RECURSIVE Lcm2(_, _, _)
 Lcm2(a, b, k) == IF (a * k) % b = 0 THEN a * k ELSE Lcm2(a, b, k + 1)
 RECURSIVE DenOf(_)
-DenOf(ps) == IF ps = <<>> THEN 1 ELSE Lcm2(Head(ps).d, DenOf(Tail(ps)), 1)
-KnownNum(ps) == LET D == DenOf(ps) IN SumSeq([i \in 1..Len(ps) |-> IF ps[i].n >= 0 THEN ps[i].n * (D \div ps[i].d) ELSE 0])
+DenOf(ps) == IF ps = <<>> THEN 1 ELSE Lcm2(AbsD(Head(ps)), DenOf(Tail(ps)), 1)
+\* numerator of the sum of the specific portions (literal and variable) over the common denominator
+KnownNum(ps) == LET D == DenOf(ps) IN SumSeq([i \in 1..Len(ps) |-> IF ps[i].n >= 0 THEN ps[i].n * (D \div AbsD(ps[i])) ELSE 0])
+\* ... of the literal ones only: what the compiler can add up
+LiteralNum(ps) == LET D == DenOf(ps) IN SumSeq([i \in 1..Len(ps) |-> IF ps[i].n >= 0 /\ ~IsVarPortion(ps[i]) THEN ps[i].n * (D \div AbsD(ps[i])) ELSE 0])
 PortionsOK(ps) ==
-    LET D == DenOf(ps) num == KnownNum(ps) nrem == Cardinality({i \in 1..Len(ps) : ps[i].n < 0}) IN
+    LET D == DenOf(ps) num == LiteralNum(ps) nrem == Cardinality({i \in 1..Len(ps) : ps[i].n < 0})
+        hasVar == \E i \in 1..Len(ps) : ps[i].n >= 0 /\ IsVarPortion(ps[i]) IN
     /\ nrem <= 1
     /\ num <= D
-    /\ (num < D) = (nrem = 1)
+    /\ (num < D) = (nrem = 1)         \* literal portions short of 100% need `remaining` - whatever variables are there
+    /\ hasVar => num < D
 
 RECURSIVE DstOK(_)
 DstOK(d) ==
@@ -142,7 +151,7 @@ SendOK(sd) ==
 Shares(total, ps) ==
     LET D == DenOf(ps)
         num == KnownNum(ps)
-        fr(i) == IF ps[i].n >= 0 THEN ps[i].n * (D \div ps[i].d) ELSE D - num
+        fr(i) == IF ps[i].n >= 0 THEN ps[i].n * (D \div AbsD(ps[i])) ELSE D - num
         fl == [i \in 1..Len(ps) |-> (total * fr(i)) \div D]
         left == total - SumSeq(fl)
     IN [i \in 1..Len(ps) |-> IF i <= left THEN fl[i] + 1 ELSE fl[i]]
